@@ -91,6 +91,34 @@ func (h *histState) oraclePhase() {
 			if !ok {
 				continue
 			}
+			if rec.clock != 0 && (got != exp || clockExempt[n]) {
+				// the call was made under a simulated clock: ask a fresh process at the same simulated instant
+				RC := refClock(kind, o.spec.DER, cfgText, n, rec.clock)
+				expC, okC := RC.Results[n]
+				switch {
+				case !okC:
+					h.log.Add("harness: no simulated-clock reference for %s", n)
+				case clockExempt[n] && got == expC:
+					if expC != exp {
+						h.ctr.inc("clock_exempt_lint_followed_clock")
+					} else {
+						h.ctr.inc("clock_exempt_lint_checked")
+					}
+				case clockExempt[n]:
+					h.violate(Violation{Property: "C05", Class: "history_dep", Lint: n, Op: rec.op,
+						Detail:   fmt.Sprintf("op %d at simulated instant %d differs from the same lint run alone in a fresh process at the same simulated instant", rec.op, rec.clock),
+						Expected: expC.String(), Got: got.String()})
+				case got == expC:
+					h.violate(Violation{Property: "C05", Class: "clock_dep", Lint: n, Op: rec.op,
+						Detail:   fmt.Sprintf("the result follows the wall clock: at simulated instant %d (obj=%s) it differs from the result at the real clock, and a fresh process at the same simulated instant agrees with it; only the two TLD-table lints may read the clock", rec.clock, o.spec.ID),
+						Expected: exp.String(), Got: got.String()})
+				default:
+					h.violate(Violation{Property: "C05", Class: "history_dep", Lint: n, Op: rec.op,
+						Detail:   fmt.Sprintf("op %d (simulated instant %d) differs from the same lint run alone in a fresh process, at the real clock and at the simulated instant", rec.op, rec.clock),
+						Expected: exp.String(), Got: got.String()})
+				}
+				continue
+			}
 			if got != exp {
 				d := fmt.Sprintf("op %d (%s obj=%s reg=%d cfg=%d fresh=%v) differs from the same lint run alone on a freshly parsed object in a fresh process",
 					rec.op, rec.path, o.spec.ID, rec.reg, rec.cfg, rec.fresh)
@@ -183,7 +211,7 @@ func (h *histState) pairwise() {
 			for b := a + 1; b < len(rs); b++ {
 				ra, rb := rs[a], rs[b]
 				ka, kb := selKey(ra.sel), selKey(rb.sel)
-				if ka == kb {
+				if ka == kb || ra.clock != rb.clock {
 					continue
 				}
 				h.ctr.inc("selection_pairs_compared")
